@@ -5,11 +5,14 @@
 static ALLOC: monitors::alloc::Counting = monitors::alloc::Counting;
 
 mod c01;
+mod c03;
+mod c04;
+mod c07;
 mod codecs;
 mod interp;
 mod oracle;
 
 fn main() {
-    let checks: Vec<&dyn monitors::driver::Check> = vec![&c01::C01];
+    let checks: Vec<&dyn monitors::driver::Check> = vec![&c01::C01, &c03::C03, &c04::C04, &c07::C07];
     std::process::exit(monitors::driver::main_with(&checks));
 }
